@@ -409,7 +409,7 @@ var c07Perturbations = []string{
 	"valid-sum+1", "valid-sum-1", "missed-sum+1", "missed-sum-1", "renter-valid-up", "renter-missed-up", "renter-unequal",
 	"price+1", "collateral-1", "price>renter", "collateral>host", "host-valid-down", "host-missed-up",
 	"grid-value", "grid-arg", "filesize", "merkle-root", "num-not-max", "missed-value-differs", "missed-addr-differs", "missed-len-3",
-	"cur-shape", "both-shape", "void-down", "other-field", "arg-exact",
+	"cur-shape", "both-shape", "void-down", "other-field", "arg-exact", "host-missed-down",
 }
 
 func c07AddOne(c types.Currency) types.Currency {
@@ -652,6 +652,18 @@ func c07Perturb(rng *rand.Rand, c *c07Case, p string) {
 	case "both-shape":
 		c.cur.valid, c.cur.missed = c07RandOuts(rng, rng.Intn(5)), c07RandOuts(rng, rng.Intn(5))
 		pr.valid, pr.missed = c07RandOuts(rng, rng.Intn(5)), c07RandOuts(rng, rng.Intn(5))
+	case "host-missed-down":
+		// the host's missed payout loses k more, the void gains it
+		if len(pr.missed) >= 3 && !pr.missed[1].val.IsZero() {
+			k := c07One()
+			if rng.Intn(2) == 0 {
+				k = c07Portion(rng, pr.missed[1].val)
+			}
+			if s, ov := pr.missed[2].val.AddWithOverflow(k); !ov {
+				pr.missed[1].val = pr.missed[1].val.Sub(k)
+				pr.missed[2].val = s
+			}
+		}
 	case "void-down":
 		// host missed payout up, void down (program revisions must only move host -> void)
 		if len(pr.missed) >= 3 && !c.cur.missed[2].val.IsZero() {
@@ -901,6 +913,18 @@ func c07MonitorClearing(em *verifEmitter, cur, fin types.FileContractRevision, p
 
 // c07MonitorBuilt: Revise/ClearingRevision take only the revision number and the output values
 // from the renter.
+func c07MonitorBuiltValues(em *verifEmitter, what string, outs []types.SiacoinOutput, vals []types.Currency) {
+	if len(outs) != len(vals) {
+		em.Monitor("built-revision-values-differ-from-renter-values", what+": count")
+		return
+	}
+	for i := range outs {
+		if outs[i].Value != vals[i] {
+			em.Monitor("built-revision-values-differ-from-renter-values", fmt.Sprintf("%s: output %d", what, i))
+		}
+	}
+}
+
 func c07MonitorBuilt(em *verifEmitter, what string, cur, got types.FileContractRevision, clearing bool) {
 	same := got.ParentID == cur.ParentID && got.UnlockConditions.UnlockHash() == cur.UnlockConditions.UnlockHash() &&
 		got.WindowStart == cur.WindowStart && got.WindowEnd == cur.WindowEnd && got.UnlockHash == cur.UnlockHash &&
@@ -1092,6 +1116,11 @@ func TestVerifC07(t *testing.T) {
 			})
 			if res.class == "ok" {
 				c07MonitorBuilt(em, "Revise", cur, *res.rev, false)
+				c07MonitorBuiltValues(em, "Revise valid", res.rev.ValidProofOutputs, c.vs)
+				c07MonitorBuiltValues(em, "Revise missed", res.rev.MissedProofOutputs, c.ms)
+				if res.rev.RevisionNumber != c.num || c.num <= cur.RevisionNumber {
+					em.Monitor("built-revision-number-not-renter-number", "Revise")
+				}
 			}
 		case c07FClearingRev:
 			inp = fmt.Sprintf("(CClearingRev %s %s)", ids.term(cur), c07Curs(c.vs))
@@ -1101,6 +1130,8 @@ func TestVerifC07(t *testing.T) {
 			})
 			if res.class == "ok" {
 				c07MonitorBuilt(em, "ClearingRevision", cur, *res.rev, true)
+				c07MonitorBuiltValues(em, "ClearingRevision valid", res.rev.ValidProofOutputs, c.vs)
+				c07MonitorBuiltValues(em, "ClearingRevision missed", res.rev.MissedProofOutputs, c.vs)
 				// what ClearingRevision builds from honest values passes ValidateClearingRevision's
 				// structural part: cleared, max number, missed = valid
 				if r := *res.rev; r.Filesize != 0 || r.FileMerkleRoot != (types.Hash256{}) || r.RevisionNumber != math.MaxUint64 {
